@@ -32,7 +32,9 @@ type Cfg struct {
 	Section, Priority, Maintainer, Description, Vendor, Homepage, License       string
 	Depends, Recommends, Suggests, Conflicts, Replaces, Provides                []string
 	Umask                                                                       int
-	Pmt                                                                         int // package mtime (epoch), 0 = not configured
+	Pmt                                                                         int  // package mtime (epoch), 0 = not configured
+	PmtZero                                                                     bool // the package mtime is configured as the epoch itself
+	UseSDE                                                                      bool // configured through SOURCE_DATE_EPOCH instead of mtime:
 	NoGlob                                                                      bool
 	Scripts                                                                     map[string]string // slot -> path relative to the source root
 	ScriptCid                                                                   map[string]string // slot -> content id of the script bytes
@@ -112,7 +114,7 @@ func (c *Cfg) M() M {
 		"vendor": c.Vendor, "homepage": c.Homepage, "license": c.License,
 		"depends": strs(c.Depends), "recommends": strs(c.Recommends), "suggests": strs(c.Suggests),
 		"conflicts": strs(c.Conflicts), "replaces": strs(c.Replaces), "provides": strs(c.Provides),
-		"umask": c.Umask, "pmt": c.Pmt, "noglob": c.NoGlob, "scripts": sc, "script_mt": scm,
+		"umask": c.Umask, "pmt": c.Pmt, "pmtset": c.Pmt != 0 || c.PmtZero, "noglob": c.NoGlob, "scripts": sc, "script_mt": scm,
 		"deb":       M{"arch": c.DebArch, "compression": c.DebCompression, "breaks": strs(c.DebBreaks), "predepends": strs(c.DebPredepends), "fields": kvs(c.DebFields), "triggers": kvs(c.DebTriggers)},
 		"rpm":       M{"arch": c.RpmArch, "compression": c.RpmCompression, "group": c.RpmGroup, "summary": c.RpmSummary, "packager": c.RpmPackager, "buildhost": c.RpmBuildHost, "prefixes": strs(c.RpmPrefixes)},
 		"apk":       M{"arch": c.ApkArch},
@@ -272,7 +274,7 @@ func (c *Cfg) YAML(root string) string {
 	if c.Umask != 0 {
 		w.line("umask: 0o%o", c.Umask)
 	}
-	if c.Pmt != 0 {
+	if (c.Pmt != 0 || c.PmtZero) && !c.UseSDE {
 		w.line("mtime: %s", time.Unix(int64(c.Pmt), 0).UTC().Format(time.RFC3339))
 	}
 	w.list("depends", c.Depends)
